@@ -240,6 +240,24 @@ def op_train(registry, project: str, release, states: list, tagspec: dict) -> di
     return {'ok': True}
 
 
+def op_train_handle(level, states: list, tagspec: dict) -> dict:
+    """The same commit through a long-lived ``asset.Release`` level object (what ``State.commit`` does with the release of
+    an instance that stays alive across trainings, e.g. two launchers of one process)."""
+    from forml.io import asset
+
+    try:
+        try:
+            base = level.get(None).tag
+        except asset.Level.Listing.Empty:
+            base = asset.Tag()
+        tag = make_tag(base, tagspec)
+        sids = [level.dump(bytes.fromhex(s)) for s in states]
+        level.put(tag.replace(states=sids))
+    except Exception as exc:  # pylint: disable=broad-except
+        return describe(exc)
+    return {'ok': True}
+
+
 def tag_view(tag) -> dict:
     def iso(value):
         return None if value is None else value.isoformat() if isinstance(value, datetime.datetime) else repr(value)
